@@ -11,27 +11,52 @@ TARGETS_R1 = ("riscv", "riscv:rvc", "riscv:rvf", "x86_64", "arm", "arm:thumb")
 TARGETS_R2 = ("msp430", "avr", "mips", "m68k")  # round 2: strict comparison, positional decoding
 TARGETS = TARGETS_R1 + TARGETS_R2
 RULE = (
-    "for riscv, riscv:rvc, riscv:rvf, x86_64, arm and arm:thumb every instruction class with a syntax (data "
-    "directives db/dw/dd/... excluded) is instantiated by Hypothesis from syntax.formal_arguments (all "
+    "for riscv, riscv:rvc, riscv:rvf, x86_64, arm, arm:thumb, msp430, avr, mips and m68k every instruction class "
+    "with a syntax (data directives db/dw/dd/... excluded) is instantiated by Hypothesis from "
+    "syntax.formal_arguments (all "
     "registers of the declared class, ints from the probed accepted set, labels, all constructor "
     "alternatives) and, deterministically, every register is put into every register field one field at a "
-    "time for each addressing-mode constructor (base x index product for two-register memory operands); "
+    "time for each addressing-mode constructor (base x index product for two-register memory operands); for "
+    "msp430/avr/mips/m68k every int operand with at most 8 accepted values is also given each of them "
+    "(msp430 constant-generator sources #-1/0/1/2/4/8 in every class); "
     "relocations of label operands are applied with a synthetic in-range symbol value; the "
-    "emitted bytes are decoded by the reference disassembler (llvm-mc 14 for RISC-V/ARM/Thumb, GNU objdump "
+    "emitted bytes are decoded by the reference disassembler (llvm-mc 14 for RISC-V/ARM/Thumb/MSP430/AVR/"
+    "MIPS(el)/M68k, GNU objdump "
     "for x86-64) in one batch; decoding must consume exactly len(encode()) bytes and the hand-written "
     "normalisation of the decoded text must equal the normalisation of str(instance): same mnemonic class, "
-    "same registers in the same positions, same immediates/displacements (labels match any value). "
+    "same registers in the same positions, same addressing mode, same immediates/displacements (labels match "
+    "any value). For msp430/avr/mips/m68k the comparison is strict: another operand count or operand kind is a "
+    "difference, not 'unverifiable'. "
     "non-trivial = at least one register/immediate operand; distinct = (target, class, operand description)"
 )
 ASSUMPTIONS = [
     "llvm-mc 14 / GNU objdump decode the covered ISAs correctly",
     "the normalisers in vf/llvmref.py (written from the ISA manuals) map both syntaxes to the same canonical "
-    "form; text they cannot interpret, operand-count differences between syntax variants and undecodable byte "
-    "strings are counted as unverifiable, never as violations",
+    "form; text they cannot interpret, operand-count differences between syntax variants (first six targets "
+    "only) and undecodable byte strings are counted as unverifiable, never as violations",
     "an instance ppci cannot encode or print is outside the domain",
     "operand sizes of x86 memory operands are not compared (ppci does not print them)",
+    "msp430/avr/mips/m68k inputs are associated with llvm-mc's outputs by position (one input per line, NOP "
+    "padding, 'invalid instruction encoding' positions from stderr); a stream that is not tiled exactly, or on "
+    "which llvm-mc dies, is halved and retried; inputs known to kill llvm-mc 14 (msp430 push @Rn/@Rn+, avr "
+    "ldd/std) are not sent to it",
+    "two hand-written fallback decoders are trusted where llvm-mc 14 has no usable decoder table: AVR "
+    "LD/LDD/ST/STD (llvmref.avr_ldst_decode, always used for these words: llvm-mc prints garbage or dies on "
+    "them) and vf/m68kdec.py for the M68000 encodings llvm-mc rejects (MOVEQ, NOT, NEG/EOR on memory, abs.W, "
+    "32-bit immediates, Bcc.L, ...); the latter is cross-checked against llvm-mc on every instance both decode "
+    "(evidence: 'm68k/own decoder agrees with llvm-mc')",
+    "msp430: register-mode / indirect uses of R2/R3 as a source are read as the constant generator's constants "
+    "and X(R2) as the absolute mode on both sides, as SLAU144 table 3-2 defines them; emulated mnemonics "
+    "(pop, ret, nop, clrc, inc, ...) are expanded to their core instruction on both sides; 16-bit words are "
+    "compared modulo 2^16. avr: 8-bit register immediates modulo 2^8, lsl/rol/tst/clr expanded. mips: "
+    "move/not/negu/nop idioms expanded; m68k: displacements and immediates modulo the operand size",
+    "C08-KF1 (aliased immediates, C10's subject) is recognised on msp430/avr/mips/m68k only when the decoded "
+    "value is the printed one with bits dropped (wrap / truncation / alignment mask) and ppci encodes it to the "
+    "identical bytes",
 ]
-TRUSTED = ["CPython", "Hypothesis", "llvm-mc 14", "GNU objdump", "normalisers in vf/llvmref.py", "vf/isagen.py"]
+TRUSTED = ["CPython", "Hypothesis", "llvm-mc 14", "GNU objdump", "normalisers in vf/llvmref.py", "vf/isagen.py",
+           "llvmref.avr_ldst_decode (AVR LD/ST decoder from the AVR Instruction Set Manual)",
+           "vf/m68kdec.py (M68000 fallback decoder from the Programmer's Reference Manual)"]
 REGISTER = True
 TECHNIQUE = "generated instruction instances decoded by llvm-mc / objdump and compared through per-ISA normalisers"
 LEVEL_TEXT = (
@@ -39,7 +64,9 @@ LEVEL_TEXT = (
     "immediates and each encoding is decoded by an independent disassembler; differential testing against the "
     "reference is the only practical oracle for bit-level encodings, and the operand space is sampled with "
     "boundary bias because it cannot be enumerated. or1k, xtensa, microblaze, stm8, mcs6500 have no reference "
-    "decoder here; msp430, avr, mips, m68k normalisers were not built."
+    "decoder here. llvm-mc 14's M68k and AVR decoders are incomplete; the gaps are filled by two small "
+    "hand-written decoders (trusted base), what neither decodes (operand combinations the architecture "
+    "reserves) is reported as unverifiable per target."
 )
 
 
@@ -174,6 +201,8 @@ KF_MIPS_NOP = "C08-KF18"  # mips nop is add $0,$0,$0 instead of the architectura
 KF_M68K_SUB = "C08-KF19"  # m68k subb/subw/subl carry the ADD opcode
 KF_M68K_IMM32 = "C08-KF20"  # m68k long-sized #imm operands get a 16-bit extension word
 KF_M68K_EOR_AN = "C08-KF21"  # m68k 'eor Dn, An' is the CMPM encoding
+KF_MIPS_SWR = "C08-KF23"  # mips swr is built with opcode 44 (SDL of MIPS64); SWR is opcode 46
+KF_MIPS_LUI_RS = "C08-KF22"  # mips lui takes an rs operand; with rs != 0 the word is reserved (AUI in release 6)
 
 _COPIED = {("riscv", "bge_ins#2"): "ble", ("arm:thumb", "lsr_ins#2"): "asr"}
 _X86_HIGH = {"ah": "spl", "ch": "bpl", "dh": "sil", "bh": "dil"}
@@ -322,6 +351,10 @@ def explain_r2(desc, text, data, diff, dec):
     if target == "mips":
         if cid in ("Jr", "Jalr") and diff[0] == "mnemonic" and diff[3] == "sll" and data == b"\0\0\0\0":
             return KF_MIPS_JR
+        if cid == "Swr" and diff[0] == "mnemonic" and diff[2:] == ("swr", "sdl") and len(data) == 4 and data[3] >> 2 == 44:
+            return KF_MIPS_SWR
+        if cid == "Lui" and diff[0] == "mnemonic" and diff[2:] == ("lui", "aui") and len(data) == 4 and (data[3] & 3 or data[2] & 0xE0):
+            return KF_MIPS_LUI_RS  # model: the rs field (bits 25..21) is not 0
         if cid == "Nop" and diff[0] == "mnemonic" and diff[2:] == ("sll", "add") and data == bytes.fromhex("20000000"):
             return KF_MIPS_NOP
         if cid in ("Sllv", "Srlv", "Srav") and diff[0] == "operand" and dec:
@@ -488,6 +521,11 @@ def class_exclusion_r2(target, cid):
             return KF_MIPS_SHIFTV
         if cid == "Nop" and _final({"target": target, "cls": cid, "args": []}) == bytes.fromhex("20000000"):
             return KF_MIPS_NOP
+        if cid == "Swr" and getattr(cls, "patterns", {}).get("opcode") == 44:
+            return KF_MIPS_SWR
+        if cid == "Lui" and [fa._name for fa in cls.syntax.formal_arguments] == ["rt", "rs", "imm"]:
+            if "r0" not in G.reg_ids(cls.syntax.formal_arguments[1]._cls)[0]:
+                return KF_MIPS_LUI_RS  # no instance with rs = 0 exists
     if target == "m68k" and cid in ("Subb", "Subw", "Subl") and getattr(cls, "patterns", {}).get("opcode") == 0b1101:
         return KF_M68K_SUB
     return None
